@@ -136,6 +136,8 @@ def run_simgrid_mc(ctx, idx, prog, reduction="odpor", extra_cfg=(), timeout=120,
            "--cfg=debug/stacktrace:none", "--log=mc_ct.thres:critical"] + list(extra_cfg)
     rc, out, err = vlib.sh(cmd, timeout=timeout, env=env)
     text = out + err
+    if "error while loading shared libraries" in text:
+        raise vlib.InfraError("simgrid-mc could not start (library being rebuilt?): " + text[-300:])
     files = sorted(glob.glob(os.path.join(d, "t_*.ndjson")), key=lambda f: int(re.search(r"t_(\d+)", f).group(1)))
     recs = []
     for f in files:
